@@ -25,8 +25,8 @@ RULE = (
     "of the abstract program filters vectors that touch C undefined behaviour (signed overflow, MIN/-1, ...) and "
     "cross-checks the two renderers on every vector; a gcc -fsanitize=undefined build discards what it reports. "
     "Undefined behaviour or non-termination of the IR on a vector that gcc and the evaluator find defined, a float in an "
-    "integer-typed ir.Const and a non-bytes initial value of an ir.Variable are failures; programs that c3_to_ir rejects "
-    "are discards (counted by diagnostic). non-trivial = the program uses a sub-int type in arithmetic or a comparison, "
+    "integer-typed ir.Const, a non-bytes initial value of an ir.Variable and a module that ppci's own IR verifier refuses "
+    "are failures; programs that c3_to_ir rejects with a C3 diagnostic are discards (counted by diagnostic). non-trivial = the program uses a sub-int type in arithmetic or a comparison, "
     "or a switch/loop, and at least one vector was compared with gcc; distinct = (program, vectors)"
 )
 ASSUMPTIONS = [
@@ -56,6 +56,7 @@ LEVEL_TEXT = (
 )
 
 MARCH = "x86_64"
+BAD_IR = "BAD_IR"
 # generator shape -> open finding that it avoids
 EXCLUSIONS = {"const_divmod": "C37-KF1", "global_bool_init": "C37-KF2"}
 
@@ -74,10 +75,11 @@ def profile(quick=True):
 
 
 def compile_c3(src):
-    """-> (ir module | None, error text)"""
+    """-> (ir module | None, error text).  The text starts with BAD_IR when the program passed the C3 type checker and
+    code generator but ppci's own IR verifier rejects the module that the front end built."""
     from ppci.api import c3_to_ir
     from ppci.build.tasks import TaskError
-    from ppci.common import CompilerError
+    from ppci.common import CompilerError, IrFormError
 
     buf = io.StringIO()
     quiet = logging.root.manager.disable
@@ -86,6 +88,9 @@ def compile_c3(src):
         with contextlib.redirect_stdout(buf):
             return c3_to_ir([io.StringIO(src)], [], MARCH), ""
     except (TaskError, CompilerError) as e:
+        cause = e.__cause__ if isinstance(e, TaskError) else e
+        if isinstance(cause, IrFormError):
+            return None, "%s %s" % (BAD_IR, cause.msg)
         msgs = re.findall(r"Error: (.*)|\^ (.*)", buf.getvalue())
         text = "; ".join(sorted({(a or b).strip() for a, b in msgs})) or str(getattr(e, "msg", e))
         return None, text
@@ -93,6 +98,8 @@ def compile_c3(src):
         tb = traceback.extract_tb(e.__traceback__)
         frames = [f for f in tb if "ppci" in f.filename]
         where = "%s:%s" % (os.path.basename(frames[-1].filename), frames[-1].name) if frames else "?"
+        if frames and os.path.basename(frames[-1].filename) == "verify.py":
+            return None, "%s %s: %s" % (BAD_IR, type(e).__name__, e)
         return None, "internal error %s in %s" % (type(e).__name__, where)
     finally:
         logging.disable(quiet)
@@ -211,7 +218,7 @@ class Front:
         if not calls:
             raise Discard("no callable function")
         module, err = compile_c3(genc3.render_c3(prog))
-        if module is None:
+        if module is None and not err.startswith(BAD_IR):
             raise Discard("c3_to_ir rejects: %s" % re.sub(r"\d+", "N", err)[:80])
         expect = genc3.evaluate(prog, calls)
         self.calls, self.expect, self.ir = [], [], []
@@ -224,7 +231,11 @@ class Front:
             self.expect.append(e)
         if not self.calls:
             raise Discard("every vector touches C undefined behaviour")
-        bad = malformed_globals(module)
+        if module is None:
+            # the program type-checks and was lowered, but the result is not IR: nothing can compute the prescribed values
+            bad = "c3_to_ir fails on this program because ppci's IR verifier rejects the IR that the C3 front end generated: " + err[len(BAD_IR) + 1:][:300]
+        else:
+            bad = malformed_globals(module)
         for (name, args), (eret, eglob, steps) in zip(self.calls, self.expect):
             if bad:
                 self.ir.append(("problem", bad))
@@ -423,5 +434,5 @@ def record(stats, case, key, compared):
 
 def run(ctx):
     check_target()
-    n = ctx.scale(400, 40000)
+    n = ctx.scale(560, 40000)
     ctx.pmap(_worker, [(subseed(ctx.seed, PID, w), n // 16, ctx.quick) for w in range(16)])
